@@ -17,6 +17,7 @@ def handle (j : Json) : Except String Json := do
     let e ← HF.exprOfJson (← fld j "tree")
     return Json.mkObj [("text", e.gen)]
   | "fusion" => Driver.fusion j
+  | "da" => Driver.da j
   | _ => throw s!"unknown op {op}"
 
 partial def loop (h : IO.FS.Stream) (out : IO.FS.Stream) : IO Unit := do
